@@ -45,13 +45,15 @@ func c42u32(b []byte) uint32 {
 }
 
 // c42lenAllowed is the bound on the prefix lengths of an instance (Param "lens"):
-// 0: every length 0..32; 4: multiples of 4; 8: multiples of 8.
+// 0: every length 0..32; 4 / 8 / 16: multiples of 4 / 8 / 16.
 func c42lenAllowed(n uint8, lens int) bool {
 	switch lens {
 	case 4:
 		return n&3 == 0
 	case 8:
 		return n&7 == 0
+	case 16:
+		return n&15 == 0
 	}
 	return true
 }
@@ -116,7 +118,11 @@ func c42table(np, nc, lens, layout int) ([]*c42prefix, []*control.RoutingChain) 
 // 0 every class has a session, 1 none has, 2 all but the first class of each prefix,
 // 3 classes with even (prefix+class) index.
 func c42sessions(rt *RoutingTable, spec []*c42prefix, layout int) map[int]*c42session {
-	pat := verif.Choose("sessions", 4)
+	// Param(sess) >= 0 fixes the pattern (bound), -1 explores all four
+	pat := verif.Param("sess")
+	if pat < 0 {
+		pat = verif.Choose("sessions", 4)
+	}
 	sess := map[int]*c42session{}
 	for i, p := range spec {
 		if layout == 1 && i > 0 {
